@@ -1,1 +1,49 @@
 //! Verification hooks: `home_relay` (thin pass-through wrappers; feature `verif-hooks` only).
+
+use std::sync::Arc;
+
+use iroh_base::RelayUrl;
+use n0_error::AnyError;
+
+use crate::{
+    endpoint::RelayStatus,
+    socket::transports::{HomeRelayWatch as Inner, RelayConnectionState},
+};
+
+/// The crate-private connection state, unchanged.
+#[derive(Debug, Clone, PartialEq, Eq)]
+pub struct ConnState(RelayConnectionState);
+
+impl ConnState {
+    pub fn connecting() -> Self {
+        Self(RelayConnectionState::Connecting)
+    }
+    pub fn connected() -> Self {
+        Self(RelayConnectionState::Connected)
+    }
+    pub fn disconnected(last_error: Option<Arc<AnyError>>) -> Self {
+        Self(RelayConnectionState::Disconnected { last_error })
+    }
+}
+
+/// The crate-private `HomeRelayWatch`, unchanged.
+#[derive(Debug, Clone, Default)]
+pub struct HomeRelayWatch(Inner);
+
+impl HomeRelayWatch {
+    pub fn set(&self, url: RelayUrl, state: ConnState) {
+        self.0.verif_set(url, state.0)
+    }
+    pub fn clear(&self) {
+        self.0.verif_clear()
+    }
+    pub fn set_status(&self, url: &RelayUrl, state: ConnState) {
+        self.0.verif_set_status(url, state.0)
+    }
+    pub fn get(&self) -> Option<RelayStatus> {
+        self.0.verif_get()
+    }
+    pub fn watch(&self) -> n0_watcher::Direct<Option<RelayStatus>> {
+        self.0.watch()
+    }
+}
